@@ -1,6 +1,7 @@
 import PysphVerif.Gen.Riemann
 import Mathlib.Algebra.Order.Field.Basic
 import Mathlib.Algebra.Order.AbsoluteValue.Basic
+import Mathlib.Algebra.Order.Group.MinMax
 import Mathlib.Tactic.Ring
 import Mathlib.Tactic.Linarith
 import Mathlib.Tactic.FieldSimp
